@@ -80,7 +80,7 @@ impl BitmapAccumulator {
 //@+    r.is_ok() ==> final(self).backend.leaves@ == old(self).backend.leaves@.take(min_nat(old(self).backend.leaves@.len(), (from_idx / 1024) as nat) as int),
 //@ end
 //@ extract chain/src/txhashset/bitmap_accumulator.rs :: impl BitmapAccumulator::pad_left
-//@   rewrite `for _ in current_chunk_idx..chunk_idx {` => `for i in iter: current_chunk_idx..chunk_idx {` x?
+//@   rewrite `for _ in ` => `for i in iter: ` x?
 //@   at_start:
 //@+    proof { axiom_size_leaves(self.backend.leaves@.len()); }
 //@   ensures:
